@@ -318,6 +318,20 @@ def _dict_get(recv, key, default=None):
 METH_MODELS[(dict, 'get')] = _dict_get
 
 
+def _dict_fromkeys(iterable, value=None):
+    keys = list(iterable)
+    if any(isinstance(k, _PROXY) for k in keys):
+        d = SOrderedDict()
+        for k in keys:
+            d[k] = value
+        return d
+    return dict.fromkeys(keys, value)
+
+
+METH_MODELS[(type, 'fromkeys')] = lambda recv, *a: \
+    _dict_fromkeys(*a) if recv is dict else recv.fromkeys(*a)
+
+
 # -- base64 / binascii over symbolic bytes
 _B64 = b'ABCDEFGHIJKLMNOPQRSTUVWXYZabcdefghijklmnopqrstuvwxyz0123456789+/'
 
@@ -352,8 +366,20 @@ def _b64encode_model(data, altchars=None):
         out.append(_b64_char(md(b0, 4) * 16 + dv(b1, 16)))
         out.append(_b64_char(md(b1, 16) * 4 + dv(b2, 64)) if n > 1 else 61)
         out.append(_b64_char(md(b2, 64)) if n > 2 else 61)
-    return mkbytes([z3.simplify(x) if not isinstance(x, int) else x
-                    for x in out])
+    res = mkbytes([z3.simplify(x) if not isinstance(x, int) else x
+                   for x in out])
+    if isinstance(res, SBytes):
+        # b64decode(b64encode(x)) == x: remembered so that decoding exactly
+        # these elements again is free (terms are interned: identity == equal)
+        B64_MEMO[_elem_key(res._e)] = data
+    return res
+
+
+B64_MEMO = {}
+
+
+def _elem_key(elems):
+    return tuple(x if isinstance(x, int) else ('t', id(x)) for x in elems)
 
 
 FUNC_MODELS[id(_base64.b64encode)] = _b64encode_model
@@ -381,6 +407,10 @@ def _b64decode_model(data, altchars=None, validate=False):
     bytes are discarded by CPython) -- we fork on membership and discard."""
     if altchars is not None:
         raise Unsupported('b64decode altchars')
+    if isinstance(data, _SSeq):
+        src = B64_MEMO.get(_elem_key(data._e))
+        if src is not None:
+            return src
     if isinstance(data, (str, SStr)):
         e = elems_of(data)
         for x in e:
@@ -1006,6 +1036,26 @@ def _sxrt_call(f, args, kw):
 
 
 _NOKW = {}
+
+
+def wrap_global(f):
+    """wrapper for a C function imported by name into an instrumented module
+    (`from base64 import b64encode`): model when an argument is symbolic"""
+    fid = id(f)
+    always = ALWAYS_FUNCS.get(fid)
+    if always is not None:
+        return always
+    model = FUNC_MODELS.get(fid)
+    if model is None:
+        return f
+
+    def wrapper(*args, **kw):
+        if _has_proxy(args, kw):
+            return model(*args, **kw)
+        return f(*args, **kw)
+    wrapper.__name__ = getattr(f, '__name__', 'wrapped')
+    wrapper._sx_wraps = f
+    return wrapper
 
 
 def _sxrt_m(recv, name, args, kw):
